@@ -336,6 +336,16 @@ func buildAlphabet() {
 	add(2, "Pedersen", "NA,2,3", fmt.Sprintf("N=%s,s=2,t=3", nA), func() interface{} { return ped(nA, 2, 3) })
 	add(0, "Pedersen", "NA,3,2", fmt.Sprintf("N=%s,s=3,t=2", nA), func() interface{} { return ped(nA, 3, 2) })
 	add(0, "Pedersen", "NB,2,3", fmt.Sprintf("N=%s,s=2,t=3", nB), func() interface{} { return ped(nB, 2, 3) })
+	// the same values decoded from encodings of other lengths (the announced length of a natural read
+	// from the wire is the sender's choice): a byte moved between the adjacent fields S and T
+	// (S=02 00|T=03 against S=02|T=00 03) must change the digest, a different announced length alone must not.
+	pedL := func(n *big.Int, s int64, sBits int, t int64, tBits int) *pedersen.Parameters {
+		return pedersen.New(arith.ModulusFromN(modFromBig(n)), natFromBig(big.NewInt(s), sBits), natFromBig(big.NewInt(t), tBits))
+	}
+	add(0, "Pedersen", "NA,512/16,3/8", fmt.Sprintf("N=%s,s=512,t=3", nA), func() interface{} { return pedL(nA, 512, 16, 3, 8) })
+	add(0, "Pedersen", "NA,2/8,3/16", fmt.Sprintf("N=%s,s=2,t=3", nA), func() interface{} { return pedL(nA, 2, 8, 3, 16) })
+	add(0, "Pedersen", "NA,2/2048,3/2056", fmt.Sprintf("N=%s,s=2,t=3", nA), func() interface{} { return pedL(nA, 2, 2048, 3, 2056) })
+	add(0, "Pedersen", "NA,512/2048,3/2048", fmt.Sprintf("N=%s,s=512,t=3", nA), func() interface{} { return pedL(nA, 512, 2048, 3, 2048) })
 
 	// ---- polynomials, ElGamal, Schnorr ----------------------------------------------------
 	exp := func(tier int, isConst bool, ks ...uint64) {
